@@ -147,7 +147,7 @@ def run(ctx):
             )
     ctx.count("growth_sites", n_sites)
     ctx.extra["discharge_kinds"] = kinds
-    ctx.floor("growth sites", n_sites, 8)
+    ctx.floor("growth sites", n_sites, 5)
     for key in PAIRED:
         ctx.need(key in seen_pairs, "strip-pair table entry no longer matches a growth site: {}".format(key))
     # strip-family calls take a SET of characters: a word-like argument means a prefix/suffix was meant, and
